@@ -65,9 +65,9 @@ THEOREM_CLASSES = {
     "C09_emitted_iff_nodce_or_reachable": "main",
     "C09_unused_initializer_evaluated": "main",
     "C09_dead_initializer_kept_whatever_attr": "tripwire",
-    "C09_vardecl_order_refuted": "refutation",
-    "C09_vardecl_order_iff_policy": "main",
-    "C09_vardecl_effects_partial": "main",
+    "C09_vardecl_order": "main",                      # full strength since /repo d685d37 (was _refuted)
+    "C09_vardecl_order_iff_policy": "tripwire",       # every placement: DCE-independent iff dropped initializers go to defemitter
+    "C09_vardecl_effects_partial": "corollary",       # every placement: permutation, single effect
     "C09_compiler_independent_refuted": "refutation",
     "C09_base_flags_always": "main",
     "C09_release_config": "main",
@@ -75,7 +75,7 @@ THEOREM_CLASSES = {
     "C09_fwrapv_needed": "corollary",
 }
 MANIFEST_ENTRY = {
-    "text": "proof, partial: theorems cover (a) the run-time checks removed by nochecks/release - a passing idiv/imod/bounds/deref/integer-narrowing/check() leaves the same value with the check removed (float narrowing refuted), (b) dead code elimination - Symbol:is_used is reachability along usedby, fuel adequate, emitted = nodce or reachable, the initializer of a dropped variable is still evaluated, and the ORDER of a declaration's effects is independent of DCE iff dropped initializers go to defemitter (refuted for today's generator, known finding), (c) the flag tables: base flags in every configuration, release => nochecks, -O2 -DNDEBUG; + - * unary minus defined under the base flags.  Rest on differential testing only: the whole-program statement `same output in every build mode`, every -O level, gcc vs clang, all other checks.",
+    "text": "proof, partial: theorems cover (a) the run-time checks removed by nochecks/release - a passing idiv/imod/bounds/deref/integer-narrowing/check() leaves the same value with the check removed (float narrowing refuted), (b) dead code elimination - Symbol:is_used is reachability along usedby, fuel adequate, emitted = nodce or reachable, the initializer of a dropped variable is still evaluated, and the ORDER of a declaration's effects is independent of DCE (full strength since /repo d685d37; for every placement of the statements: iff dropped initializers go to defemitter), (c) the flag tables: base flags in every configuration, release => nochecks, -O2 -DNDEBUG; + - * unary minus defined under the base flags.  Rest on differential testing only: the whole-program statement `same output in every build mode`, every -O level, gcc vs clang, all other checks.",
     "note": "no axioms; tie: scraped cdefs.lua/configer.lua/cbuiltins.lua/cgenerator.lua facts in Gen.v, extracted model run against the real Symbol:is_used, against the emitted helpers in checked and nochecks builds, against the real compile command line, and against default / -P nodce builds of generated declarations; depends on files of C01 and C03 (coq/C03/{CSem,Helpers,ProofsBase,ProofsDiv}.v and coq/C01/Order.v copied by checks/C01.py:sync_shared, harness/C01/{scrape,progs,vardecl}.py, harness/C03/ubdrv.nelua)",
     "technique": "Coq theorems about an executable Gallina model + generated parameters + behavioural correspondence of the extracted model; differential builds",
 }
@@ -598,19 +598,22 @@ def stream_vardecl(ctx, driver, cov):
             if m["wf"] != "1" or bad:
                 n_mm += 1
                 if n_mm <= 3:
-                    ctx.violation("model-mismatch:vardecl", "correspondence",
+                    differ = outs["dce"][k][0] != outs["nodce"][k][0]
+                    ctx.violation(("vardecl-order:%s" % line) if differ else "model-mismatch:vardecl", "oracle" if differ else "correspondence",
                                   "declaration `%s` (%s): effects run in the order %s by default and %s with -P nodce; the model says %s and %s" %
                                   (line, c["form"], outs["dce"][k][0], outs["nodce"][k][0], m["dce"], m["nodce"]),
-                                  detail={"nelua_source": vardecl.programs(c, k)[0], "no_longer_checks": "correspondence stream C09/vardecl"}, failing_input=False)
+                                  detail={"nelua_source": vardecl.programs(c, k)[0], "no_longer_checks": "correspondence stream C09/vardecl"}, failing_input=differ)
             elif outs["dce"][k][1] != outs["nodce"][k][1]:
                 ctx.violation("vardecl-values:%s" % line, "oracle", "declaration `%s`: the variables hold %r by default and %r with -P nodce" % (line, outs["dce"][k][1], outs["nodce"][k][1]),
                               detail={"nelua_source": vardecl.programs(c, k)[0]})
             elif m["dce"] != m["nodce"]:
-                n_pred += 1         # the known defect (C09_vardecl_order_refuted), in the order the model of today's generator predicts
+                n_pred += 1         # cannot happen while C09_vardecl_order holds for the scraped placement
+                ctx.violation("vardecl-order:%s" % line, "oracle", "declaration `%s`: effects run in the order %s by default and %s with -P nodce" % (line, outs["dce"][k][0], outs["nodce"][k][0]),
+                              detail={"nelua_source": vardecl.programs(c, k)[0]})
             else:
                 n_same += 1
     cov["vardecl"] = {"declarations": n_cases, "same_order_in_both_modes": n_same,
-                      "order_differs_as_predicted_by_C09_vardecl_order_refuted": n_pred, "model_mismatches": n_mm}
+                      "order_differs_between_modes": n_pred, "model_mismatches": n_mm}
     return n_cases * 2, n_cases, sample
 
 
